@@ -100,6 +100,10 @@ def gen(tier, rng, boost=1):
     for _ in range((150 if tier == "quick" else 3000) * boost):
         masks = [rng.randrange(64) for _ in range(rng.choice([1, 2, 3, 6]))]
         ops.append(f"mp.obj {rng.choice(['mem', 'stream'])} {';'.join(map(str, masks))}")
+    ops.append("mp.obj2 mem " + ";".join(str(m) for m in range(32)))
+    ops.append("mp.obj2 stream " + ";".join(str(m) for m in reversed(range(32))))
+    for _ in range((40 if tier == "quick" else 1000) * boost):
+        ops.append(f"mp.obj2 {rng.choice(['mem', 'stream'])} {';'.join(str(rng.randrange(32)) for _ in range(rng.choice([1, 2, 4])))}")
     ops.append("mp.obj mem " + ";".join(str(m) for m in range(64)))
     ops.append("mp.obj stream " + ";".join(str(m) for m in reversed(range(64))))
     return ops
